@@ -69,6 +69,14 @@ def layout_case(rng):
         queries.append(("|:%s|" % name, "(sizeof %s)" % t.layout[name]))
         n = rng.randint(0, 4)
         queries.append(("|:[%d]%s|" % (n, name), "(sizeof (arr %d %s))" % (n, t.layout[name])))
+    # constants defined by size-of, written BEFORE the declarations they measure; one of them is an array length
+    pre = ""
+    for kind, name, declared, ms in t.decls:
+        pre += "const SZ_%s: usize = |:%s|;\nconst TW_%s: usize = 2 * |:%s| + 1;\n" % (name, name, name, name)
+        queries.append(("SZ_%s" % name, "(sizeof %s)" % t.layout[name]))
+        queries.append(("|:[SZ_%s]u8|" % name, "(sizeof %s)" % t.layout[name]))
+        queries.append(("TW_%s - |:%s| - 1" % (name, name), "(sizeof %s)" % t.layout[name]))
+    src = pre + src
     for p in ("bool", "u8", "i128", "usize", "&i32", "[3]bool", "[2][3]u16"):
         lay = {"bool": "bool", "u8": "(int 1)", "i128": "(int 16)", "usize": "(int 8)", "&i32": "ptr", "[3]bool": "(arr 3 bool)", "[2][3]u16": "(arr 2 (arr 3 (int 2)))"}[p]
         queries.append(("|:%s|" % p, "(sizeof %s)" % lay))
@@ -96,6 +104,9 @@ def const_case(rng, i):
     n = rng.randint(0, 8)
     lines.append("const LEN: usize = %d + %d;" % (n // 2, n - n // 2))
     prints.append('\tvar arr: [LEN]i32;\n\tprint!(|arr|, " ", |:[LEN]i32|, "\\n");')
+    lit = ", ".join(str(j) for j in range(n))
+    prints.append('\tprint!(count([%s]), " ", count(arr), " ", pcount(&arr), " ", |arr|, "\\n");' % lit if n > 0 else '\tprint!(count(arr), " ", count(arr), " ", pcount(&arr), " ", |arr|, "\\n");')
+    lines.append("fn count(x: []i32) -> usize\n{\n\treturn: |x|\n}\nfn pcount(x: &[]i32) -> usize\n{\n\treturn: |x|\n}")
     src = "\n".join(lines) + "\n\nfn main() -> u8\n{\n" + "\n".join(prints) + "\n\treturn: 0\n}\n"
     sx = "(prog (structs) (consts %s) (funcs (fn main () u8 (%s) (lit u8 0))))" % (" ".join(sx_consts), " ".join(sx_stmts))
     return src, sx, n
@@ -116,6 +127,20 @@ def run(tier):
         lcases.append((cid, src)); meta[cid] = (queries, words)
         for j, (q, sx) in enumerate(queries): items.append(("layout", "%s.q%d" % (cid, j), sx))
         for j, (sx, name) in enumerate(words): items.append(("layout", "%s.w%d" % (cid, j), sx))
+    # every word of 1-4 primitive members (sizes 1, 2, 4, 8 bytes) at every declared size: accepted iff it fits
+    import itertools
+    wp = {1: "u8", 2: "i16", 4: "u32", 8: "i64"}
+    k = 0
+    for ln in range(1, 5 if tier == "quick" else 6):
+        for seq in itertools.product((1, 2, 4, 8), repeat=ln):
+            for bits in (8, 16, 32, 64, 128):
+                cid = "x%d" % k; k += 1
+                src = "word%d W\n{\n%s}\nfn main() -> u8\n{\n\tprint!(|:W|, \"\\n\");\n\treturn: 0\n}\n" % (bits, "".join("\tm%d: %s,\n" % (i, wp[b]) for i, b in enumerate(seq)))
+                lay = "(struct%s)" % "".join(" (int %d)" % b for b in seq)
+                queries = [("|:W|", "(sizeof %s)" % lay)]
+                words = [("(word %d (%s))" % (bits // 8, " ".join(str(b) for b in seq)), "W")]
+                lcases.append((cid, src)); meta[cid] = (queries, words)
+                items.append(("layout", cid + ".q0", queries[0][1])); items.append(("layout", cid + ".w0", words[0][0]))
     impl = C.run_harness("exec", lcases, ck.work + "/layout", timeout=1800)
     model = C.run_model(items, ck.work + "/layout")
     stats = collections.Counter(); mism = 0; distinct = set()
@@ -168,12 +193,16 @@ def run(tier):
         if m in ("UB", "FUEL"): continue
         mout = C.unesc(m.split(" out=", 1)[1]).decode(errors="replace").split("\n") if m.startswith("exit=") else None
         ccmp += 1
-        for j, line in enumerate(out[:-2]):
+        for j, line in enumerate(out[:-3]):
             parts = line.split(" ")
             if len(parts) == 2 and parts[0] != parts[1]:
                 cmism += 1; ck.violation("const-differs-from-var", "a constant and a variable initialised with the same expression differ: %s" % line, src); break
             if mout is not None and j < len(mout) and mout[j] != line:
                 cmism += 1; ck.violation("const-differs-from-semantics", "constant expression evaluates to %s, the source semantics gives %s" % (line, mout[j]), src); break
+        counts = out[-2] if len(out) >= 2 else "?"
+        out = out[:-1]
+        if counts != " ".join([str(lens[cid])] * 4):
+            cmism += 1; ck.violation("length-through-parameter", "|x| of an array of %d elements passed as a literal / by view / by slice pointer / taken directly prints '%s'" % (lens[cid], counts), src)
         last = out[-2] if len(out) >= 2 else "?"
         exp = "%d %d" % (lens[cid], 4 * lens[cid])
         if last != exp:
@@ -183,7 +212,7 @@ def run(tier):
         ck.violation("tie-broken:proof", "Props/C10.v no longer checks", getattr(ck, "proof_output", "")[-2000:])
     ck.coverage.update(
         evaluations=len(lcases) + len(ccases), distinct_nontrivial=len(distinct),
-        rule="layout stream: 1-5 random struct/word declarations (primitive, pointer, array, nested struct/word members) per program, `|:T|` and `|:[N]T|` printed at run time vs Model/Layout.v; E380 iff the model's word_accepted is false; constants stream: 1-6 constants over all integer types (arithmetic, bitwise, shifts, casts, references to earlier constants) printed next to a variable with the same initialiser and compared with the interpreter, plus an array whose length is a named constant; distinct = distinct type layouts queried",
+        rule="layout stream: 1-5 random struct/word declarations (primitive, pointer, array, nested struct/word members) per program, `|:T|` and `|:[N]T|` printed at run time vs Model/Layout.v; E380 iff the model's word_accepted is false, including EVERY word of 1-4 members of 1/2/4/8 bytes at every declared size; constants stream: 1-6 constants over all integer types (arithmetic, bitwise, shifts, casts, references to earlier constants) printed next to a variable with the same initialiser and compared with the interpreter, plus an array whose length is a named constant, and |x| of an array literal / variable passed by view and by slice pointer; size-of constants written before the structures they measure, used as array lengths; distinct = distinct type layouts queried",
         layout_stats=dict(stats), layout_problems=mism, const_programs=ccmp, const_problems=cmism,
         samples=[dict(source=lcases[0][1][:800], output=impl.get(lcases[0][0], ["?", "?"])[1][:200]), dict(source=ccases[0][1][:600])])
     ck.assumptions += ["`|x|` through the different parameter kinds is covered by the C01/C08 exec streams once arrays are generated there",
